@@ -3,6 +3,7 @@
 mod c04;
 mod c05;
 mod c06;
+mod c07;
 mod c10;
 mod c11;
 mod c12;
@@ -24,6 +25,7 @@ fn main() {
         "c04" | "c03a" => c04::run(&args.sub, &args),
         "c05" => c05::run(&args),
         "c06" => c06::run(&args),
+        "c07" => c07::run(&args),
         "c10" => c10::run(&args),
         "c11" => c11::run(&args),
         "c18a" => c18::run(&args),
